@@ -6,13 +6,13 @@ import sys, json, os
 undef = [l.strip() for l in open(sys.argv[1]) if l.strip()]
 variant = sys.argv[3]
 wrapped = set("malloc calloc realloc free strdup vasprintf read write open close uselocale newlocale "
-              "duplocale freelocale setlocale arc4random arc4random_buf arc4random_uniform".split())
+              "duplocale freelocale setlocale arc4random arc4random_buf arc4random_uniform getrandom getentropy fstat fstat64 lseek lseek64".split())
 # resources / nondeterminism sources that would need a seam if json-c started using them
 risky = set("""posix_memalign aligned_alloc memalign valloc strndup asprintf reallocarray mmap munmap
-fopen fdopen fread fwrite fclose fgets getline open64 openat creat pread pwrite readv writev lseek fsync
-getrandom rand random srand srandom rand_r time clock clock_gettime gettimeofday getpid
+fopen fdopen fread fwrite fclose fgets getline open64 openat creat pread pwrite readv writev fsync
+rand random srand srandom rand_r time clock clock_gettime gettimeofday getpid
 pthread_create pthread_mutex_lock pthread_mutex_unlock localeconv nl_langinfo __open_2 __open64_2
-__read_chk getentropy""".split())
+__read_chk""".split())
 found_risky = sorted(s for s in undef if s in risky and s not in wrapped)
 used_wrapped = sorted(s for s in undef if s in wrapped)
 out = {"variant": variant, "wrapped_and_used": used_wrapped, "unwrapped_risky": found_risky}
